@@ -182,7 +182,7 @@ type loopFinding struct {
 // Returns findings and the number of start-element paths examined.
 func (te *tokenEngine) checkUnmarshal(fn *ssa.Function) (findings []loopFinding, npaths int, hasLoop bool) {
 	w := te.w
-	toks := w.callsIn(fn, "encoding/xml.Decoder.Token")
+	toks := w.callsInH(fn, "encoding/xml.Decoder.Token")
 	if len(toks) == 0 {
 		return nil, 0, false
 	}
@@ -287,7 +287,7 @@ func (te *tokenEngine) checkUnmarshal(fn *ssa.Function) (findings []loopFinding,
 // excepted), and the error edge of Token leaves the function.
 func (te *tokenEngine) progress(fn *ssa.Function) string {
 	w := te.w
-	toks := w.callsIn(fn, "encoding/xml.Decoder.Token")
+	toks := w.callsInH(fn, "encoding/xml.Decoder.Token")
 	if len(toks) != 1 {
 		return fmt.Sprintf("%d Token calls", len(toks))
 	}
